@@ -611,37 +611,75 @@ root packet Order {
     u32 seqNo @calculatedFrom(""CRC32""),
 }
 ")).
-Eval vm_compute in ("<<<M1340>>>" ++ check (runes_of_ascii "options {
-    ArrayPrefixLenType = u64;
-    FixedStringPadFromLeft = true;
-    FixedStringPadChar = '0';
+Eval vm_compute in ("<<<M1874>>>" ++ check (runes_of_ascii "options {
+	LittleEndian
+=
+	true
+	;
+
+    StringPrefixLenType =	u64  ; ArrayPrefixLenType
+
+= 
+u16
+
+; 
+FixedStringPadFromLeft	=	false
+
+; 
+FixedStringPadChar
+
+=  ' '; 
 }
-packet Quote {
+packet
+Logon{zchar[
+5
+
+    ] Side2 
+,
 }
-packet Ack {
-    repeat InNote66 {
-        u8 pad0,
-    },
+    root	packet  Logout
+{
+
+    repeat
+i64
+Tail
+
+    ,
+	Logon
+    ,
+	repeat
+
+i16
+
+    OrderId,
+
+    char[]venue
+,
+	uint64
+
+    x, 
+repeat
+i16
+
+count	,
+
+    u8
+
+Flags,match Flags
+as
+Body {
+25
+: Logon
+
+    ,
 }
-packet Reject {
-}
-root packet Order {
-    Quote,
-    repeat Reject,
-    string venue,
-    string seqNo,
-    uint32 Ref,
-    u16 lastPx,
-    u32 clOrdID @lengthOf(Body),
-    match lastPx as Body {
-        190 : Reject,
-        186 : Quote,
-        22 : Ack,
-    },
-    u16 Flags @calculatedFrom(""CR\
-C32""),
-}
-")).
+, u16
+	Qty @calculatedFrom(
+    ""CR\
+C32""
+	)	,
+
+    }")).
 Eval vm_compute in ("<<<M1365>>>" ++ check (runes_of_ascii "
 options
 
@@ -750,23 +788,18 @@ MetaData f32a {
     float options1 `it's`,
     i8i8 options1 `" ++ [28040; 24687; 31867; 22411]%N ++ runes_of_ascii "`,
 }")).
-Eval vm_compute in ("<<<M35>>>" ++ check (runes_of_ascii "  packet Header
-{ @calculatedFrom( // a // b
-""a	b"" )
-char[
-    255] falsey `tab	here`,int8
-    // " ++ [27880; 37322]%N ++ runes_of_ascii "
-    u
-`doc` , float32 lengthOf
-    @calculatedFrom(
-""a	b""  )
-    // a // b
-    , @rightPad (
-' '  ) @tag( 3
-) float64 asx
-    ,
-int8 metadata @lengthOf(zchar )// a // b
-,Pad f32a , }")).
+Eval vm_compute in ("<<<M182>>>" ++ check (runes_of_ascii "root packet int {match MetaDataX	as charz
+{ 255 :uint8x , 65535 : // @lengthOf(
+u128 ""\" ++ [233]%N ++ runes_of_ascii """
+:o,0123456789 : _x ""{,}"" :
+    matchKey
+// `tick` ""quote"" 'q'
+// `tick` ""quote"" 'q'
+[4294967296 ,"""" ,	10
+    ]: charz , }	, @lengthOf( roots
+) x @calculatedFrom( ""\n"" )
+    , i32
+    tag , }")).
 Eval vm_compute in ("<<<M1372>>>" ++ check (runes_of_ascii "
 options  {
     LittleEndian
